@@ -11,9 +11,11 @@ prop("C02",
      min_obs={"quick": {"cases_memory": 100, "cases_stringstream": 100, "cases_fstream": 100, "cases_interfile": 100,
                         "cases_permuted_segment_sequence": 100, "cases_tof": 50, "cases_integer_on_disk": 100,
                         "independent_reader_checks": 2000, "out_of_range_requests": 500, "writes_bin": 500,
-                        "writes_related_viewgrams": 500, "interfile_roundtrips": 50},
+                        "writes_related_viewgrams": 500, "interfile_roundtrips": 50,
+                        "cfg_asymmetric_segment_range": 150, "cfg_symmetric_reduced_segment_range": 300,
+                        "writes_fill_from_larger_source_in_memory": 300, "writes_fill_from_larger_source_on_file": 200},
               "thorough": {"independent_reader_checks": 50000, "out_of_range_requests": 10000}},
-     rule=("case = one random history (8..40/120 operations) on one generated geometry (unequal axial counts per segment, TOF and "
+     rule=("case = one random history (8..40/120 operations) on one generated geometry (unequal axial counts per segment, reduced segment ranges - asymmetric ones such as -2..1 for data in memory -, fill(ProjData) also from in-memory or file sources with MORE segments, TOF and "
            "non-TOF, arc-corrected or not) x backing store (ProjDataInMemory / ProjDataFromStream on a stringstream / on an fstream / "
            "ProjDataInterfile) x storage order x random permutation of the segment sequence x on-disk type (float, short, ushort, int, "
            "schar; with scale factor) x byte order x stream offset.  Every operation writes unique values through one access path "
